@@ -50,7 +50,9 @@ func genAccount(rt *rapid.T, label string, feat *[]string) string {
 	kind := rapid.IntRange(0, 9).Draw(rt, label+".kind")
 	switch {
 	case kind <= 1:
-		return pick(rt, label+".common", []string{"root", "core", "ubuntu", "auditomalditotesting", "a", "svc_deploy", "j.doe", "machine$"})
+		// common names, and names that are (or end in) tokens of the message grammar
+		return pick(rt, label+".common", []string{"root", "core", "ubuntu", "auditomalditotesting", "a", "svc_deploy", "j.doe", "machine$",
+			"ID", "CA", "serial", "from", "port", "ssh2", "DAVID", "svc-ID", "user", "for", "invalid", "publickey", "password", "x.CA", "not", "allowed"})
 	case kind <= 7:
 		s := string(pick(rt, label+".first", asciiNameFirst)) + genStringOf(rt, label+".rest", asciiNameRest, 0, 31)
 		if rapid.IntRange(0, 5).Draw(rt, label+".dollar") == 0 {
@@ -312,6 +314,11 @@ func genSshdMsgForm(rt *rapid.T, form string) sshdMsg {
 			id, serial := genKeyID(rt, "keyid", feat), genSerial(rt, "serial", feat)
 			cakt := pick(rt, "cakt", keyTypes)
 			cahn, cafp := genFingerprint(rt, "cafp", feat)
+			if rapid.IntRange(0, 5).Draw(rt, "selfsigned") == 0 {
+				// a certificate signed by its own key: sshd prints the same fingerprint twice
+				cahn, cafp = hn, fp
+				*feat = append(*feat, "self_signed_certificate")
+			}
 			m.Msg += fmt.Sprintf(" ID %s (serial %s) CA %s %s:%s", id, serial, cakt, cahn, cafp)
 			m.KeyID = id
 			m.Want["userID"], m.Want["Serial"] = id, serial
@@ -513,7 +520,7 @@ func genJunk(rt *rapid.T) junkLine {
 			s = string(b)
 		case 3: // prefix text
 			j.Kind = "prefixed"
-			s = pick(rt, "pre", []string{" ", "x", "error: ", "sshd[12]: ", "\t", "Accepted ", "User "}) + s
+			s = pick(rt, "pre", []string{" ", "x", "error: ", "sshd[12]: ", "\t", "Accepted ", "User ", "\n", "error: \n", "x\r\n", "\x00"}) + s
 		case 4: // duplicate a segment
 			j.Kind = "duplicated_segment"
 			a := rapid.IntRange(0, len(toks)-1).Draw(rt, "a")
